@@ -11,20 +11,20 @@ Definition covered_np (vi : nat) (sw : sworld) (c : call) : Prop :=
   let sv := sw_sv sw in
   step_hyps s sv /\
   match c with
-  | CMkdir vi' p _ => vi' = vi /\ exists cl, name_path p cl /\ resolved s sv SlLstat p /\ no_setgid_p s sv false p
+  | CMkdir vi' p _ => vi' = vi /\ exists cl, name_path p cl /\ resolved s sv SlLstat p
   | CSymlink vi' t p =>
-      vi' = vi /\ t = clean Linux t /\ exists cl, name_path p cl /\ resolved s sv SlLstat p /\ no_setgid_p s sv false p
+      vi' = vi /\ t = clean Linux t /\ exists cl, name_path p cl /\ resolved s sv SlLstat p
   | CLink vi' o p =>
       vi' = vi /\ exists cl, name_path p cl /\ resolved s sv SlLstat o /\ resolved s sv SlLstat p /\ not_symlink_p s sv o
   | CWriteFile vi' p _ _ =>
-      vi' = vi /\ exists cl, name_path p cl /\ resolved s sv SlLstat p /\ resolved s sv SlEval p /\ no_setgid_p s sv true p
+      vi' = vi /\ exists cl, name_path p cl /\ resolved s sv SlLstat p /\ resolved s sv SlEval p
   | COpenFile vi' p flag _ =>
       vi' = vi /\
       ((has flag O_CREATE = false /\ p <> [] /\ resolved s sv SlEval p)
        \/ (has flag O_CREATE = true /\ has flag O_EXCL = false /\
-           exists cl, name_path p cl /\ resolved s sv SlLstat p /\ resolved s sv SlEval p /\ no_setgid_p s sv true p)
+           exists cl, name_path p cl /\ resolved s sv SlLstat p /\ resolved s sv SlEval p)
        \/ (has flag O_CREATE = true /\ has flag O_EXCL = true /\
-           exists cl, name_path p cl /\ resolved s sv SlLstat p /\ no_setgid_p s sv false p))
+           exists cl, name_path p cl /\ resolved s sv SlLstat p))
   | _ => False
   end.
 
@@ -34,33 +34,33 @@ Theorem step_world_np (w : world) (vi : nat) (sw : sworld) (c : call) :
   /\ absw (fst (impl_step_proj w c)) vi (fst (spec_step true sw c)).
 Proof.
   intros Ha (H & Hc). pose proof Ha as (Hfs & Hv). destruct c; try (destruct Hc; fail).
-  - destruct Hc as (-> & cl & Hnp & Hr & Hsg).
+  - destruct Hc as (-> & cl & Hnp & Hr).
     apply (world_of_lift w vi sw _ (mkdir (w_fs w) (sv_view (sw_sv sw)) p perm) (k_mkdir (sw_fs sw) (sw_sv sw) p perm) Ha).
     + apply (impl_lift w _ _ (wstep_mkdir w vi _ Hv p perm)); [left; discriminate|exact I].
     + apply spec_mkdir.
-    + rewrite <- Hfs. exact (step_mkdir_p (sw_fs sw) (sw_sv sw) p cl H Hnp perm Hr Hsg).
-  - destruct Hc as (-> & [(Hcr & Hne & Hr)|[(Hcr & Hex & cl & Hnp & Hr0 & Hr & Hsg)|(Hcr & Hex & cl & Hnp & Hr & Hsg)]]);
+    + rewrite <- Hfs. exact (step_mkdir_p (sw_fs sw) (sw_sv sw) p cl H Hnp perm Hr).
+  - destruct Hc as (-> & [(Hcr & Hne & Hr)|[(Hcr & Hex & cl & Hnp & Hr0 & Hr)|(Hcr & Hex & cl & Hnp & Hr)]]);
       apply (world_open w vi sw _ _ _ Ha); rewrite <- Hfs.
     + exact (step_open_nocreate_p (sw_fs sw) (sw_sv sw) vi p flag perm H Hne Hr Hcr).
-    + exact (step_open_create_p (sw_fs sw) (sw_sv sw) vi p cl flag perm H Hnp Hr0 Hr Hsg Hcr Hex).
-    + exact (step_open_excl_p (sw_fs sw) (sw_sv sw) vi p cl flag perm H Hnp Hr Hsg Hcr Hex).
+    + exact (step_open_create_p (sw_fs sw) (sw_sv sw) vi p cl flag perm H Hnp Hr0 Hr Hcr Hex).
+    + exact (step_open_excl_p (sw_fs sw) (sw_sv sw) vi p cl flag perm H Hnp Hr Hcr Hex).
   - destruct Hc as (-> & cl & Hnp & Hro & Hr & Hns).
     apply (world_of_lift w vi sw _ (link (w_fs w) (sv_view (sw_sv sw)) o n) (k_link true (sw_fs sw) (sw_sv sw) o n) Ha).
     + apply (impl_lift w _ _ (wstep_link w vi _ Hv o n)); [left; discriminate|exact I].
     + apply spec_link.
     + rewrite <- Hfs. exact (step_link_p (sw_fs sw) (sw_sv sw) n cl H Hnp o Hro Hr Hns).
-  - destruct Hc as (-> & Et & cl & Hnp & Hr & Hsg).
+  - destruct Hc as (-> & Et & cl & Hnp & Hr).
     apply (world_of_lift w vi sw _ (symlink (w_fs w) (sv_view (sw_sv sw)) o n) (k_symlink (sw_fs sw) (sw_sv sw) o n) Ha).
     + apply (impl_lift w _ _ (wstep_symlink w vi _ Hv o n)); [left; discriminate|exact I].
     + apply spec_symlink.
-    + rewrite <- Hfs. pose proof (step_symlink_p (sw_fs sw) (sw_sv sw) n cl H Hnp o Hr Hsg) as E.
+    + rewrite <- Hfs. pose proof (step_symlink_p (sw_fs sw) (sw_sv sw) n cl H Hnp o Hr) as E.
       rewrite <- Et in E. exact E.
-  - destruct Hc as (-> & cl & Hnp & Hr0 & Hr & Hsg).
+  - destruct Hc as (-> & cl & Hnp & Hr0 & Hr).
     apply (world_of_lift w vi sw _ (write_file (w_fs w) (sv_view (sw_sv sw)) p data perm)
              (go_write_file (sw_fs sw) (sw_sv sw) p data perm) Ha).
     + apply (impl_lift w _ _ (wstep_write_file w vi _ Hv p data perm)); [left; discriminate|exact I].
     + apply spec_write_file.
-    + rewrite <- Hfs. exact (step_write_file_p (sw_fs sw) (sw_sv sw) p cl data perm H Hnp Hr0 Hr Hsg).
+    + rewrite <- Hfs. exact (step_write_file_p (sw_fs sw) (sw_sv sw) p cl data perm H Hnp Hr0 Hr).
 Qed.
 
 Theorem links_ok_spec_step_np (vi : nat) (sw : sworld) (c : call) :
@@ -242,15 +242,13 @@ Module StepCwdCreateExamples.
       split; [exact Hsh|]. split; [reflexivity|]. exists s_x.
       change (relp [DD; s_x]) with (clean Linux (relp [DD; s_x])).
       assert (HR : name_path (clean Linux (relp [DD; s_x])) s_x /\ _) by rel_tac Hsh (relp [DD; s_x]) 1 (@nil str) s_x.
-      destruct HR as (Hnp & Hr). split; [exact Hnp|]. split; [res_tac Hr SlLstat|].
-      intros par name md E. vm_compute in E. injection E as <- _ _. reflexivity.
+      destruct HR as (Hnp & Hr). split; [exact Hnp|]. res_tac Hr SlLstat.
     - (* WriteFile "../x/f" *)
       right. split; [|change (fst (spec_step true sv2 d3)) with sv3; cwd_tac].
       split; [exact Hsh|]. split; [reflexivity|]. exists s_f.
       change (relp [DD; s_x; s_f]) with (clean Linux (relp [DD; s_x; s_f])).
       assert (HR : name_path (clean Linux (relp [DD; s_x; s_f])) s_f /\ _) by rel_tac Hsh (relp [DD; s_x; s_f]) 1 [s_x] s_f.
-      destruct HR as (Hnp & Hr). split; [exact Hnp|]. split; [res_tac Hr SlLstat|]. split; [res_tac Hr SlEval|].
-      intros par name md E. vm_compute in E. injection E as <- _ _. reflexivity.
+      destruct HR as (Hnp & Hr). split; [exact Hnp|]. split; [res_tac Hr SlLstat|]. res_tac Hr SlEval.
     - (* Link "f" "../x/g" *)
       right. split; [|change (fst (spec_step true sv3 d4)) with sv4; cwd_tac].
       split; [exact Hsh|]. split; [reflexivity|]. exists s_g.
@@ -271,8 +269,7 @@ Module StepCwdCreateExamples.
       split; [exact Hsh|]. split; [reflexivity|]. right. right. split; [reflexivity|]. split; [reflexivity|]. exists s_n.
       change (relp [DD; s_x; s_n]) with (clean Linux (relp [DD; s_x; s_n])).
       assert (HR : name_path (clean Linux (relp [DD; s_x; s_n])) s_n /\ _) by rel_tac Hsh (relp [DD; s_x; s_n]) 1 [s_x] s_n.
-      destruct HR as (Hnp & Hr). split; [exact Hnp|]. split; [res_tac Hr SlLstat|].
-      intros par name md E. vm_compute in E. injection E as <- _ _. reflexivity.
+      destruct HR as (Hnp & Hr). split; [exact Hnp|]. res_tac Hr SlLstat.
     - (* Getwd *)
       left. right; right. split; [exact Hsh|]. split; [exact Hih|reflexivity].
   Qed.
